@@ -137,3 +137,12 @@ Example C12_example :
   let r := invoke (denote false (fun _ _ => false) e) (mkCtx (B [97;44;120]) [] [] []) in
   (map value (snd r), usage (fst r), messages (fst r), nospace (fst r)) = ([B [97;44;120;99]], B [111], [B [109]], B [44]).
 Proof. vm_compute. reflexivity. Qed.
+
+(* ---------- NoSpace in terms of what is matched (Proofs/SuffixAlgebra.v) ---------- *)
+From CV Require Import Base.Utf8 Proofs.Utf8 Proofs.SuffixAlgebra.
+Theorem C12_nospace_matches : forall m rs0 cs v,
+  nospace m = encode_runes rs0 -> Forall scalar rs0 -> Forall scalar cs ->
+  sm_matches (nospace (add_nospace m cs)) v = sm_matches (nospace m) v || existsb (hits v) cs /\
+  messages (add_nospace m cs) = messages m /\ usage (add_nospace m cs) = usage m.
+Proof. exact add_nospace_matches. Qed.
+Print Assumptions C12_nospace_matches.
